@@ -128,6 +128,13 @@ func c03GenCase(rt *rapid.T) c03Case {
 		return ops
 	}
 	c.Ops = gen(0, rapid.IntRange(3, 12).Draw(rt, "n"), "t")
+	if c.Default == "kill" && rapid.IntRange(0, 2).Draw(rt, "threadkill") == 0 {
+		// directed shape: a thread of the main process makes a call the filter itself kills while the main thread waits -
+		// "for every process and thread": the run ends as Disallowed Syscall
+		body := []c03Op{{Kind: "stat", K: nextK, Form: rapid.IntRange(0, len(c03Forms["stat"])-1).Draw(rt, "tkform")}, {Kind: "other", Name: rapid.SampledFrom(c03Others).Draw(rt, "tkother")}}
+		nextK++
+		c.Ops = append([]c03Op{{Kind: "thread", Body: body}, {Kind: "sleep"}}, c.Ops...)
+	}
 	if c.Default == "trace" && rapid.IntRange(0, 2).Draw(rt, "seq") == 0 {
 		name := rapid.SampledFrom(c03SeqNames).Draw(rt, "seqname")
 		var ds []int
